@@ -247,7 +247,7 @@ def grid_unit(unit):
 def special_units(thorough):
     n = len(b01.focus_cases(thorough))
     focus = [("focus", i, thorough) for i in range(n) if not b01.focus_cases(thorough)[i][0].startswith("dictdefault") or i % 9 == 0]
-    return focus + [("relpath", 0, thorough), ("meta", 0, thorough), ("defaults", 0, thorough)]
+    return focus + [("relpath", 0, thorough), ("meta", 0, thorough), ("defaults", 0, thorough), ("dict_kwargs", 0, thorough)]
 
 
 def special_unit(unit):
@@ -263,6 +263,8 @@ def special_unit(unit):
                 relpath_cases(rec)
             elif kind == "meta":
                 meta_cases(rec)
+            elif kind == "dict_kwargs":
+                dict_kwargs_cases(rec)
             else:
                 default_cases(rec)
         finally:
@@ -442,8 +444,33 @@ def default_cases(rec):
                 fixed_point_checks(cx, res[1], [ch, "no settings"])
 
 
+class KW:
+    def __init__(self, x: int = 0, **kw):
+        pass
+
+
+def dict_kwargs_cases(rec):
+    """A class taking **kwargs whose declared default already carries dict_kwargs: a result that gives other dict_kwargs is a fixed point like any other."""
+    cp = __name__ + ".KW"
+    for label, dflt in (("default-with-dict_kwargs", {"class_path": cp, "dict_kwargs": {"d": 1}}), ("default-without-dict_kwargs", {"class_path": cp}), ("no-default", None)):
+        p = ArgumentParser(exit_on_error=False, prog="app")
+        p.add_argument("--cfg", action=ActionConfigFile)
+        p.add_argument("--a", type=KW, **({} if dflt is None else {"default": dflt}))
+        B = Built(p, "dict_kwargs:" + label, lambda v: v, None, "a")
+        cx = Ctx(rec, B, "class-with-**kwargs", "-", "yaml", prefix=f"dict_kwargs:{label}:")
+        given = {"a": {"class_path": cp, "dict_kwargs": {"e": 2}}}
+        for ch, feedfn in (("argv", lambda: p.parse_args(["--a=" + cp, "--a.dict_kwargs.e=2"])), ("obj", lambda: p.parse_object(copy.deepcopy(given))), ("string", lambda: p.parse_string(json.dumps(given)))):
+            res = outcome(feedfn)
+            if res[0] != "ok":
+                rec.count("rejected")
+                continue
+            rec.count("accepted")
+            rec.nontrivial(f"dict_kwargs:{label}:{ch}")
+            fixed_point_checks(cx, res[1], [ch, given])
+
+
 def any_unit(unit):
-    return special_unit(unit) if unit[0] in ("focus", "relpath", "meta", "defaults") else grid_unit(unit)
+    return special_unit(unit) if unit[0] in ("focus", "relpath", "meta", "defaults", "dict_kwargs") else grid_unit(unit)
 
 
 def main():
